@@ -65,6 +65,7 @@ let runners : (string * (z list -> z list)) list = [
   "bq", run_bq;
   "reduce", run_reduce;
   "dreduce", run_dreduce;
+  "hash", run_hash;
   "suspend", run_suspend;
   "once", run_once;
 ]
